@@ -25,6 +25,10 @@ Coord == 0..MaxC
 VarForms == {"float64", "int64"}
 \* Two public methods grid a trajectory (grid_trajectory and the older cells_touched_by_trajectory_with_state_and_
 \* integrated_variables it was refactored from): same pieces - cells, order, amounts - from both
+\* AxisForms: the altitude / time axes of a grid are arrays of any numeric type - floats in metres / seconds or whole numbers
+\* (kilometres, ten-minute units).  A point between two levels lies in the cell below it whatever the type of the axis:
+\* the point's value is compared, it is not converted to the type of the axis.
+AxisForms == {"float", "whole"}
 \* NearParallel: a segment along a latitude grid line that is tilted by less than any grid scale (a millimetre) still crosses
 \* that line where the two meet - at its middle, if it starts as far below the line as it ends above: its pieces before the
 \* middle lie in the row of the start point, those after it in the row of the end point (the harness derives these cases from
